@@ -3,6 +3,7 @@ import EaselModel.Random.Model
 import EaselModel.Dist.FloatInst
 import EaselModel.Generated.Dist
 import EaselModel.Dist.Mix
+import EaselModel.Dist.Bisect
 /-! Line-protocol driver for the C10 model: runs the TRANSLATED functions at `Float`.
     `f fn=<name> a=<bits>,<bits>,…`            → `ok <bits>`
     `f2 fn=<g>,<f> a=<x>,<params…>`             → `ok <bits of g(f(x,params),params)>`
@@ -69,6 +70,23 @@ def mixEval (ws : List String) (fn : String) (x : Float) : Option Float :=
     | _, _, _, _ => none
   | _ => none
 
+/-- `esl_hxp_invcdf` / `esl_mixgev_invcdf` (outer `none` = ill-formed op, inner `none` = fuel exhausted) -/
+def mixInv (ws : List String) (p : Float) : Option (Option Float) :=
+  match arg? ws "fam" with
+  | some "hxp" =>
+    match argBits? ws "mu", argList? ws "q", argList? ws "l" with
+    | some mu, some q, some l =>
+      if q.length != l.length || q.isEmpty then none else
+      some (Bisect.invcdfRight (fun x => Mix.hxp_cdf x mu (q.zip l)) p mu)
+    | _, _, _ => none
+  | some "mixgev" =>
+    match argList? ws "q", argList? ws "mu", argList? ws "l", argList? ws "al" with
+    | some q, some mu, some l, some al =>
+      if q.length != l.length || q.length != mu.length || q.length != al.length || q.isEmpty then none else
+      some (Bisect.invcdfMix (fun x => Mix.mixgev_cdf x (q.zip (mu.zip (l.zip al)))) p (Bisect.dmin mu))
+    | _, _, _, _ => none
+  | _ => none
+
 /-- `esl_hxp_Sample` / `esl_mixgev_Sample`: `k = DChoose(r, q)`, then the component's `Sample(r, …)` -/
 def mixSampleLoop (ws : List String) : Nat → Rng → List String → Option (List String)
   | 0, _, acc => some acc.reverse
@@ -109,7 +127,11 @@ def step (s : Unit) (line : String) : Unit × String :=
   | "f" :: _ =>
     match arg? ws "fn", (arg? ws "a").bind parseBitsList with
     | some fn, some a =>
-      match fn, a with
+      match ungeneric fn, a with
+      | "esl_sxp_invcdf", [p, mu, l, t] =>
+        (s, match Bisect.invcdfRight (fun x => Gen.esl_sxp_cdf x mu l t) p mu with | some v => s!"ok {hex64 v.toBits}" | none => "hang")
+      | "esl_gam_invcdf", [p, mu, l, t] =>
+        (s, match Bisect.invcdfGam (fun x => Gen.esl_gam_cdf x mu l t) p mu l t with | some v => s!"ok {hex64 v.toBits}" | none => "hang")
       | "esl_stats_erfc", [x] => (s, s!"ok {hex64 (Num.erfc x).toBits}")
       | "esl_stats_LogGamma", [x] => (s, s!"ok {hex64 (Num.logGamma x).toBits}")
       | "esl_stats_IncGammaP", [a, x] => (s, s!"ok {hex64 (Num.incGammaP a x).toBits}")
@@ -144,8 +166,11 @@ def step (s : Unit) (line : String) : Unit × String :=
     | _, _, _, _ => (s, "bad-op")
   | "mix" :: _ =>
     match arg? ws "fn", argBits? ws "x" with
-    | some "invcdf", _ => (s, "unmodelled")           -- bracketing/bisection loops: monitor-only
-    | some "generic_invcdf", _ => (s, "unmodelled")
+    | some "invcdf", some p | some "generic_invcdf", some p =>
+      match mixInv ws p with
+      | some (some v) => (s, s!"ok {hex64 v.toBits}")
+      | some none => (s, "hang")
+      | none => (s, "bad-op")
     | some fn, some x =>
       match mixEval ws (fn.replace "generic_" "") x with
       | some v => (s, s!"ok {hex64 v.toBits}")
